@@ -206,5 +206,78 @@ def cmpflip(src):
     return ast.unparse(t) + "\n"
 
 
-TRANSFORMS = {"alpha": alpha, "reprint": reprint, "rettemp": rettemp, "ifswap": ifswap,
+def _exits(stmts):
+    if not stmts:
+        return False
+    last = stmts[-1]
+    if isinstance(last, (ast.Return, ast.Raise, ast.Continue, ast.Break)):
+        return True
+    if isinstance(last, ast.If) and last.orelse:
+        return _exits(last.body) and _exits(last.orelse)
+    return False
+
+
+class _NoElse(ast.NodeTransformer):
+    """if c: ...return   else: B   ->   if c: ...return ; B   (ruff RET505-508)"""
+
+    def _block(self, stmts):
+        out = []
+        for st in stmts:
+            st = self.visit(st)
+            if isinstance(st, ast.If) and st.orelse and _exits(st.body):
+                tail = st.orelse
+                st.orelse = []
+                out.append(st)
+                out.extend(tail)
+            else:
+                out.append(st)
+        return out
+
+    def generic_visit(self, node):
+        for f in ("body", "orelse", "finalbody"):
+            b = getattr(node, f, None)
+            if isinstance(b, list) and b and isinstance(b[0], ast.stmt):
+                setattr(node, f, self._block(b))
+        for h in getattr(node, "handlers", []) or []:
+            h.body = self._block(h.body)
+        return node
+
+
+def noelse(src):
+    t = ast.parse(src)
+    _NoElse().visit(t)
+    ast.fix_missing_locations(t)
+    return ast.unparse(t) + "\n"
+
+
+class _NotCmp(ast.NodeTransformer):
+    """not a == b -> a != b ; not a in b -> a not in b ; not a is b -> a is not b
+    and the reverse for the positive forms is left alone (ruff SIM201-203)."""
+    M = {ast.Eq: ast.NotEq, ast.NotEq: ast.Eq, ast.In: ast.NotIn, ast.NotIn: ast.In,
+         ast.Is: ast.IsNot, ast.IsNot: ast.Is}
+
+    def visit_FunctionDef(self, n):
+        if n.name in ("__ne__", "__eq__"):
+            return n          # `self != other` inside __ne__ would recurse
+        self.generic_visit(n)
+        return n
+
+    def visit_UnaryOp(self, n):
+        self.generic_visit(n)
+        if isinstance(n.op, ast.Not) and isinstance(n.operand, ast.Compare) \
+                and len(n.operand.ops) == 1 and type(n.operand.ops[0]) in self.M:
+            c = n.operand
+            return ast.Compare(left=c.left, ops=[self.M[type(c.ops[0])]()],
+                               comparators=c.comparators)
+        return n
+
+
+def notcmp(src):
+    t = ast.parse(src)
+    _NotCmp().visit(t)
+    ast.fix_missing_locations(t)
+    return ast.unparse(t) + "\n"
+
+
+TRANSFORMS = {"noelse": noelse, "notcmp": notcmp, "alpha": alpha, "reprint": reprint, "rettemp": rettemp, "ifswap": ifswap,
               "cmpflip": cmpflip}
